@@ -16,7 +16,7 @@ TcDefectNames == {"tc-special-set", "tc-dialog-no-close-p", "tc-endbr-keeps-fram
                   "tc-command-void-in-head", "tc-chars-token-granularity", "tc-textarea-stays-in-body",
                   "tc-cell-caption-ws-base", "tc-intable-other-drops-reprocess", "tc-frameset-pop-name-only",
                   "tc-adoption-inner-loop-3", "tc-anyotherend-ignores-namespace", "tc-isindex-expansion",
-                  "tc-no-rb-rtc", "tc-table-pre-lf-kept"}
+                  "tc-no-rb-rtc", "tc-table-pre-lf-kept", "tc-fragment-table-in-table-dropped", "tc-fragment-tokenizer-state"}
 Std(d) == d \notin KnownDefects
 
 \* ---------------------------------------------------------------------------------------------
@@ -216,6 +216,9 @@ PInit(scripting, inner) ==
 \* tokenizer start state for a fragment context
 FragmentTokState(inner, scripting) ==
     IF inner \in {N_title, N_textarea} THEN "rcdata"
+    ELSE IF Std("tc-fragment-tokenizer-state") /\ inner = N_script THEN "script"
+    ELSE IF Std("tc-fragment-tokenizer-state") /\ inner = N_noscript THEN (IF scripting THEN "rawtext" ELSE "data")
+    \* html5lib: script and noscript contexts always start in RAWTEXT
     ELSE IF inner \in {N_style, N_script, N_xmp, N_iframe, N_noembed, N_noframes, N_noscript} THEN "rawtext"
     ELSE IF inner = N_plaintext THEN "plaintext" ELSE "data"
 
@@ -396,7 +399,12 @@ StartTag(ps, mode, tok) ==
                       p6 == NoRe(EndTag(p5, "inBody", ImpliedEndTok(N_label)))
                       p7 == NoRe(StartTag(p6, "inBody", ImpliedStart(N_hr)))
                   IN NoRe(EndTag(p7, "inBody", ImpliedEndTok(N_form))))
-        ELSE IF nm = N_textarea THEN NoRe([InsertHtml(ps, tok) EXCEPT !.tokReq = "rcdata", !.dropLF = TRUE, !.fok = FALSE])
+        ELSE IF nm = N_textarea THEN
+            \* html5lib stays in the in-body mode (the characters of the textarea go through the in-body rules); the standard
+            \* switches to the text mode
+            (IF Std("tc-textarea-stays-in-body")
+             THEN NoRe([InsertHtml(ps, tok) EXCEPT !.tokReq = "rcdata", !.dropLF = TRUE, !.fok = FALSE, !.orig = ps.mode, !.mode = "text"])
+             ELSE NoRe([InsertHtml(ps, tok) EXCEPT !.tokReq = "rcdata", !.dropLF = TRUE, !.fok = FALSE]))
         ELSE IF nm = N_iframe THEN NoRe(RcdataRawtext([ps EXCEPT !.fok = FALSE], tok, "rawtext"))
         ELSE IF nm = N_noscript /\ ps.scripting THEN NoRe(RcdataRawtext(ps, tok, "rawtext"))
         ELSE IF nm \in {N_noembed, N_noframes} THEN NoRe(RcdataRawtext(ps, tok, "rawtext"))
@@ -430,7 +438,10 @@ StartTag(ps, mode, tok) ==
         ELSE IF nm \in {N_td, N_th, N_tr} THEN
             Rep([InsertImplied(PopWhileNotNamed(ps, {N_table, N_html}), N_tbody) EXCEPT !.mode = "inTableBody"])
         ELSE IF nm = N_table THEN
-            LET p1 == NoRe(EndTag(ps, ps.mode, ImpliedEndTok(N_table))) IN IF ps.inner = None THEN Rep(p1) ELSE p1
+            \* html5lib reprocesses the token only when parsing a document; the standard whenever a table was in table scope
+            LET p1 == NoRe(EndTag(ps, ps.mode, ImpliedEndTok(N_table))) IN
+            IF Std("tc-fragment-table-in-table-dropped") THEN (IF NameInScope(ps, N_table, "table") THEN Rep(p1) ELSE p1)
+            ELSE IF ps.inner = None THEN Rep(p1) ELSE p1
         ELSE IF nm \in {N_style, N_script} THEN StartTag(ps, "inHead", tok)
         ELSE IF nm = N_input /\ IsHiddenInput(tok) THEN NoRe(VoidInsert(ps, tok))
         ELSE IF nm = N_form THEN
@@ -724,7 +735,11 @@ Chars(ps, mode, cls, data) ==
                   IN NoRe(IF d1 = <<>> THEN p0 ELSE InsertTextCur(Reconstruct(p0), d1))
              ELSE NoRe(InsertTextCur(Reconstruct(ps), data)))
         ELSE NoRe([InsertTextCur(Reconstruct(ps), data) EXCEPT !.fok = FALSE])
-    [] mode = "text" -> NoRe(InsertTextCur(ps, data))
+    [] mode = "text" ->
+        IF Std("tc-textarea-stays-in-body") /\ ps.dropLF
+        THEN LET d1 == IF cls = "ws" /\ data[1] = 10 /\ ~HasContent(ps.nodes, Cur(ps)) THEN Tail(data) ELSE data
+             IN NoRe(InsertTextCur([ps EXCEPT !.dropLF = FALSE], d1))
+        ELSE NoRe(InsertTextCur(ps, data))
     [] mode \in {"inTable", "inTableBody", "inRow"} ->
         \* the standard ignores an LF that directly follows <pre>/<listing>/<textarea> here too; html5lib's table text path keeps it
         IF Std("tc-table-pre-lf-kept") /\ ps.dropLF /\ cls = "ws" /\ data[1] = 10
